@@ -9,11 +9,11 @@ import (
 	"fmt"
 	"io"
 
+	_ "github.com/ipld/go-ipld-prime/codec/dagcbor"
+	_ "github.com/ipld/go-ipld-prime/codec/raw"
 	"github.com/ipld/go-ipld-prime/datamodel"
 	"github.com/ipld/go-ipld-prime/linking"
 	cidlink "github.com/ipld/go-ipld-prime/linking/cid"
-	_ "github.com/ipld/go-ipld-prime/codec/dagcbor"
-	_ "github.com/ipld/go-ipld-prime/codec/raw"
 
 	"verif/lib/fw"
 	"verif/lib/model"
@@ -41,7 +41,7 @@ type Opts struct {
 }
 
 var keyPool = []string{"a", "b", "c", "d", "x", "0", "1", "2", "k"}
-var oddKeys = []string{"", "a/b", "..", ".", "-1", "ü", "00", "+1", "-"}
+var oddKeys = []string{"", "a/b", "..", ".", "-1", "ü", "00", "+1", "-", "caf\xe9", "\xff\xfe", "k\x80v", "\xef\xbf\xbd", "\x00", "a\x00b", "%2F", "a b", "\u2028", "😀"}
 
 func link(codec uint64, block []byte) string {
 	d := sha256.Sum256(block)
